@@ -27,14 +27,13 @@ Definition outgoing (b : block) : list id :=
 Definition opt_id_is (o : option id) (x : id) : bool :=
   match o with Some y => Nat.eqb x y | None => false end.
 
-(* replaceOutgoing(old, new): a conditional block replaces the true edge, ELSE the false edge *)
+(* replaceOutgoing(old, new): both edges of a conditional block are re-pointed (since the fix in /repo:
+   "NormalizeBlocks lost the start block and half-replaced conditional edges") *)
 Definition replace_outgoing (b : block) (old new : id) : block :=
   match b with
   | BSimple o n => if opt_id_is n old then BSimple o (Some new) else b
   | BCond o t f =>
-      if opt_id_is t old then BCond o (Some new) f
-      else if opt_id_is f old then BCond o t (Some new)
-      else b
+      BCond o (if opt_id_is t old then Some new else t) (if opt_id_is f old then Some new else f)
   end.
 
 Definition is_term_op (i : instr) : bool :=
